@@ -620,6 +620,27 @@ def mutations(base, label, sites="all"):
     return out
 
 
+def second_mapping(sch):
+    """the schema's type mapping with the cast of one type changed (a type no pipeline field has): Int <-> String"""
+    for t in sch.types_root.iter("type"):
+        mine = [f.get("name") for f in sch.fields().values() if f.get("type") == t.get("name")]
+        used = any(n not in EXCLUDED and not n.startswith("No") for n in mine)
+        if not used or t.get("name") in ("STRING", "SEQNUM", "LENGTH", "NUMINGROUP") or any(n in PIPELINE for n in mine):
+            continue
+        if any(f.findall("value") for f in sch.fields().values() if f.get("type") == t.get("name")):
+            continue  # (enum classification depends on the cast: keep the experiment to plain fields)
+        new = {"Int": "String", "String": "Int", "Float": "String", "Time": "String"}.get(t.get("cast"))
+        if new is None:
+            continue
+        s = sch.clone()
+        for t2 in s.types_root.iter("type"):
+            if t2.get("name") == t.get("name"):
+                t2.set("cast", new)
+        s.note = "%s: %s -> %s" % (t.get("name"), t.get("cast"), new)
+        return s
+    return None
+
+
 def load(path_schema, path_types):
     return Schema(ET.parse(path_schema).getroot(), ET.parse(path_types).getroot())
 
@@ -776,7 +797,13 @@ def run_variant(c, idx, v):
         if not v.big or v.name == "fix44":
             for form, od, cwd in (("nested", "a/b/p", mod), ("absolute", os.path.join(mod, "abs", "p"), wd), ("nested-dot", "./x/../y/p", mod),
                                   ("mixed-case", "Gen/OutDir_1/p", mod), ("space", "with space/p", mod), ("percent", "pct%d%s/p", mod),
-                                  ("unicode", "caf\u00e9/\u0414/p", mod)):
+                                  ("unicode", "caf\u00e9/\u0414/p", mod), ("symlink", "lnk/p", mod)):
+                if form == "symlink":
+                    # the last path element is a symbolic link to a directory of another name: the package is named
+                    # after the path the user gave
+                    os.makedirs(os.path.join(mod, "real_store_7"))
+                    os.makedirs(os.path.join(mod, "lnk"))
+                    os.symlink(os.path.join("..", "real_store_7"), os.path.join(mod, "lnk", "p"))
                 rc3, out3 = gen(od, cwd)
                 tgt = od if os.path.isabs(od) else os.path.join(cwd, od)
                 if rc3 != 0 and verdict_varies(True):
@@ -809,12 +836,30 @@ def run_variant(c, idx, v):
             shutil.rmtree(os.path.join(mod, "a"), ignore_errors=True)
             shutil.rmtree(os.path.join(mod, "abs"), ignore_errors=True)
             shutil.rmtree(os.path.join(mod, "y"), ignore_errors=True)
-            for d in ("Gen", "with space", "pct%d%s", "caf\u00e9"):
+            for d in ("Gen", "with space", "pct%d%s", "caf\u00e9", "lnk", "real_store_7"):
                 shutil.rmtree(os.path.join(mod, d), ignore_errors=True)
         shutil.rmtree(os.path.join(mod, "p2"), ignore_errors=True)
         # one Generator object, two Execute calls (library API): both succeed and agree with the command line run
         if (not v.big or v.name == "fix44") and not any(sg.startswith("nondeterministic") for sg, _ in viol):
-            rc5, out5 = sh([c.twice, os.path.join(wd, "schema.xml"), os.path.join(wd, "types.xml"), os.path.join(mod, "t1", "p"), os.path.join(mod, "t2", "p")], cwd=mod, timeout=300)
+            # ... and a second Generator on the same parsed schema object with another type mapping gives what a
+            # fresh parse with that mapping gives
+            alt, ref3 = second_mapping(v.sch), None
+            extra = []
+            if alt is not None:
+                open(os.path.join(wd, "types2.xml"), "w").write(alt.types_xml())
+                rc6, out6 = sh([c.fixgen, "-o", "./p3ref/p", "-t", os.path.join(wd, "types2.xml"), "-s", os.path.join(wd, "schema.xml")], cwd=mod, timeout=300)
+                if rc6 == 0:
+                    ref3 = tree_bytes(os.path.join(mod, "p3ref", "p"))
+                    extra = [os.path.join(wd, "types2.xml"), os.path.join(mod, "t3", "p")]
+            rc5, out5 = sh([c.twice, os.path.join(wd, "schema.xml"), os.path.join(wd, "types.xml"), os.path.join(mod, "t1", "p"), os.path.join(mod, "t2", "p")] + extra, cwd=mod, timeout=300)
+            if rc5 == 4 or (rc5 == 0 and ref3 is not None and tree_bytes(os.path.join(mod, "t3", "p")) != ref3):
+                t3 = tree_bytes(os.path.join(mod, "t3", "p")) if rc5 == 0 else {}
+                bad = sorted(f for f in (ref3 or {}) if t3.get(f) != ref3[f])
+                viol.append(("schema-object-not-reusable", "a second Generator built on the same parsed schema with another type mapping (%s) %s" % (
+                    alt.note, ("failed: " + out5[-300:]) if rc5 == 4 else "wrote %d file(s) that differ from a fresh generation with that mapping, e.g. %s" % (len(bad), bad[:3]))))
+                rc5 = 0
+            shutil.rmtree(os.path.join(mod, "p3ref"), ignore_errors=True)
+            shutil.rmtree(os.path.join(mod, "t3"), ignore_errors=True)
             if rc5 == 3:
                 viol.append(("HARNESS:twice", out5[-400:]))
             elif rc5 != 0 and verdict_varies(True):
